@@ -1,8 +1,1257 @@
-//! stub — to be implemented
-use crate::common::{Ctx, Report};
+//! C15 — no HTTP/2 input can crash, wedge or over-commit a worker.
+//!
+//! Part (a): the frame-decoder lab (`run_parser`). Direct calls of the public
+//! `sozu_lib::protocol::mux::parser::{preface, frame_header, frame_body}` on arbitrary byte strings.
+//!
+//! Oracle (from the statement: "the frame decoder consumes exactly header plus declared payload or
+//! reports an error, for every input"), against a reference decode written from RFC 9113 §4.1/§6
+//! and RFC 9218 §7.1 that only looks at the raw bytes:
+//!
+//! * `frame_header` is `Err` or `Ok((rest, h))` with `rest` = the input minus exactly 9 bytes and
+//!   `h` = (24-bit length, type, flags, stream id with the reserved bit cleared) of those 9 bytes;
+//!   it must be `Err` when fewer than 9 bytes are present or the length exceeds the maximum given;
+//! * `frame_body` is `Err` or consumes exactly `payload_len` bytes of what follows, and the decoded
+//!   frame equals the reference decode (PING, RST_STREAM, WINDOW_UPDATE, SETTINGS, GOAWAY, PRIORITY,
+//!   PRIORITY_UPDATE, DATA/HEADERS padding and priority arithmetic);
+//! * it must be `Err` when no decode exists (payload shorter than declared, fixed-size frame of the
+//!   wrong size, padding larger than what is left), and `Ok` on a well-formed frame;
+//! * never a panic (a panic located under /repo is the violation `panic@file:line`).
+//!
+//! Where RFC 9113 lets the decision live in the connection layer (stream-id zero/non-zero rules,
+//! zero WINDOW_UPDATE increment, PUSH_PROMISE) or where sozu documents a cap of its own (64
+//! SETTINGS entries, 1024-byte PRIORITY_UPDATE value) both answers are accepted and counted as
+//! exempt; the consumption/content checks still apply when the decoder says `Ok`.
+//!
+//! Part (b) (live connections) is added separately to this file.
 
-pub fn run(_ctx: &Ctx) -> Report {
-    let mut rep = Report::new("exploration", "not implemented");
-    rep.broken("check not implemented yet");
+use serde_json::{Value, json};
+use sozu_lib::protocol::mux::parser::{self, Frame, FrameHeader, FrameType, PriorityPart};
+
+use crate::common::{Ctx, Report, Rng, guard, par_cases_named};
+
+// ---------------------------------------------------------------------------------------------
+// reference decode (RFC 9113 §4.1, §6; RFC 9218 §7.1) — deliberately not sharing code with sozu
+// ---------------------------------------------------------------------------------------------
+
+const PREFACE: &[u8] = b"PRI * HTTP/2.0\r\n\r\nSM\r\n\r\n";
+
+const T_DATA: u8 = 0;
+const T_HEADERS: u8 = 1;
+const T_PRIORITY: u8 = 2;
+const T_RST: u8 = 3;
+const T_SETTINGS: u8 = 4;
+const T_PUSH: u8 = 5;
+const T_PING: u8 = 6;
+const T_GOAWAY: u8 = 7;
+const T_WINUP: u8 = 8;
+const T_CONT: u8 = 9;
+const T_PRIO_UPDATE: u8 = 0x10;
+
+const TYPE_NAMES: [&str; 12] = [
+    "DATA", "HEADERS", "PRIORITY", "RST_STREAM", "SETTINGS", "PUSH_PROMISE", "PING", "GOAWAY",
+    "WINDOW_UPDATE", "CONTINUATION", "PRIORITY_UPDATE", "UNKNOWN",
+];
+
+fn type_index(t: u8) -> usize {
+    match t {
+        0..=9 => t as usize,
+        T_PRIO_UPDATE => 10,
+        _ => 11,
+    }
+}
+
+/// sozu-documented caps (DESIGN appendix A): answers beyond them are exempt, not judged
+const SOZU_MAX_SETTINGS_ENTRIES: usize = 64;
+const SOZU_MAX_PRIORITY_UPDATE_VALUE: usize = 1024;
+
+#[derive(Clone, Copy, Debug)]
+struct RefHeader {
+    len: u32,
+    ty: u8,
+    flags: u8,
+    sid: u32,
+}
+
+fn ref_header(input: &[u8]) -> Option<RefHeader> {
+    if input.len() < 9 {
+        return None;
+    }
+    Some(RefHeader {
+        len: ((input[0] as u32) << 16) | ((input[1] as u32) << 8) | input[2] as u32,
+        ty: input[3],
+        flags: input[4],
+        sid: (((input[5] as u32) << 24) | ((input[6] as u32) << 16) | ((input[7] as u32) << 8) | input[8] as u32)
+            & 0x7fff_ffff,
+    })
+}
+
+/// does the frame type satisfy RFC 9113's stream-id rule (zero / non-zero)?
+fn sid_rule_ok(ty: u8, sid: u32) -> bool {
+    match ty {
+        T_DATA | T_HEADERS | T_PRIORITY | T_RST | T_PUSH | T_CONT => sid != 0,
+        T_SETTINGS | T_PING | T_GOAWAY | T_PRIO_UPDATE => sid == 0,
+        _ => true,
+    }
+}
+
+#[derive(Debug, PartialEq)]
+enum RefContent {
+    Data { start: usize, len: usize, end_stream: bool },
+    Headers { prio: Option<(bool, u32, u8)>, start: usize, len: usize, end_stream: bool, end_headers: bool },
+    Priority { exclusive: bool, dep: u32, weight: u8 },
+    Rst { code: u32 },
+    Settings { pairs: Vec<(u16, u32)>, ack: bool },
+    Ping { payload: [u8; 8], ack: bool },
+    GoAway { last: u32, code: u32, debug_start: usize, debug_len: usize },
+    WindowUpdate { inc: u32 },
+    Continuation,
+    PriorityUpdate { sid: u32, value: Vec<u8> },
+    Unknown(u8),
+    /// PUSH_PROMISE: no content comparison
+    Opaque,
+}
+
+#[derive(Debug)]
+enum Expect {
+    /// no decode exists for these bytes: the decoder must report an error
+    Reject(&'static str),
+    /// both answers permitted; if Ok the content (when given) and the consumption are checked
+    Either(&'static str, Option<RefContent>),
+    /// well-formed: must be Ok with this content
+    Accept(RefContent),
+}
+
+fn be32(b: &[u8]) -> u32 {
+    ((b[0] as u32) << 24) | ((b[1] as u32) << 16) | ((b[2] as u32) << 8) | b[3] as u32
+}
+
+/// reference decode of the payload that follows a header `h`
+fn ref_body(h: &RefHeader, body: &[u8]) -> Expect {
+    let len = h.len as usize;
+    if body.len() < len {
+        return Expect::Reject("payload_truncated");
+    }
+    let p = &body[..len];
+    match h.ty {
+        T_DATA | T_HEADERS => {
+            let padded = h.flags & 0x8 != 0;
+            let prio = h.ty == T_HEADERS && h.flags & 0x20 != 0;
+            let mut off = 0usize;
+            let mut pad = 0usize;
+            if padded {
+                if len < 1 {
+                    return Expect::Reject("padded_without_pad_length_byte");
+                }
+                pad = p[0] as usize;
+                off = 1;
+            }
+            let mut pr = None;
+            if prio {
+                if len < off + 5 {
+                    return Expect::Reject("priority_fields_truncated");
+                }
+                let d = be32(&p[off..off + 4]);
+                pr = Some((d & 0x8000_0000 != 0, d & 0x7fff_ffff, p[off + 4]));
+                off += 5;
+            }
+            let rem = len - off;
+            if pad > rem {
+                return Expect::Reject("pad_exceeds_payload");
+            }
+            if h.ty == T_DATA {
+                Expect::Accept(RefContent::Data { start: off, len: rem - pad, end_stream: h.flags & 1 != 0 })
+            } else {
+                Expect::Accept(RefContent::Headers {
+                    prio: pr,
+                    start: off,
+                    len: rem - pad,
+                    end_stream: h.flags & 1 != 0,
+                    end_headers: h.flags & 4 != 0,
+                })
+            }
+        }
+        T_PRIORITY => {
+            if len != 5 {
+                return Expect::Reject("fixed_size_mismatch");
+            }
+            let d = be32(&p[..4]);
+            Expect::Accept(RefContent::Priority { exclusive: d & 0x8000_0000 != 0, dep: d & 0x7fff_ffff, weight: p[4] })
+        }
+        T_RST => {
+            if len != 4 {
+                return Expect::Reject("fixed_size_mismatch");
+            }
+            Expect::Accept(RefContent::Rst { code: be32(p) })
+        }
+        T_SETTINGS => {
+            let ack = h.flags & 1 != 0;
+            if ack && len != 0 {
+                return Expect::Reject("settings_ack_with_payload");
+            }
+            if len % 6 != 0 {
+                return Expect::Reject("settings_not_multiple_of_6");
+            }
+            let pairs: Vec<(u16, u32)> = p
+                .chunks(6)
+                .map(|c| ((((c[0] as u16) << 8) | c[1] as u16), be32(&c[2..6])))
+                .collect();
+            if pairs.len() > SOZU_MAX_SETTINGS_ENTRIES {
+                return Expect::Either("settings_above_sozu_cap", Some(RefContent::Settings { pairs, ack }));
+            }
+            Expect::Accept(RefContent::Settings { pairs, ack })
+        }
+        T_PUSH => Expect::Either("push_promise", Some(RefContent::Opaque)),
+        T_PING => {
+            if len != 8 {
+                return Expect::Reject("fixed_size_mismatch");
+            }
+            let mut payload = [0u8; 8];
+            payload.copy_from_slice(p);
+            Expect::Accept(RefContent::Ping { payload, ack: h.flags & 1 != 0 })
+        }
+        T_GOAWAY => {
+            if len < 8 {
+                return Expect::Reject("goaway_too_short");
+            }
+            Expect::Accept(RefContent::GoAway {
+                last: be32(&p[..4]) & 0x7fff_ffff,
+                code: be32(&p[4..8]),
+                debug_start: 8,
+                debug_len: len - 8,
+            })
+        }
+        T_WINUP => {
+            if len != 4 {
+                return Expect::Reject("fixed_size_mismatch");
+            }
+            let inc = be32(p) & 0x7fff_ffff;
+            if inc == 0 {
+                // §6.9: an error, but whether stream or connection error depends on state
+                return Expect::Either("window_update_zero_increment", Some(RefContent::WindowUpdate { inc }));
+            }
+            Expect::Accept(RefContent::WindowUpdate { inc })
+        }
+        T_CONT => Expect::Accept(RefContent::Continuation),
+        T_PRIO_UPDATE => {
+            if len < 4 {
+                return Expect::Reject("priority_update_too_short");
+            }
+            let c = RefContent::PriorityUpdate { sid: be32(&p[..4]) & 0x7fff_ffff, value: p[4..].to_vec() };
+            if len - 4 > SOZU_MAX_PRIORITY_UPDATE_VALUE {
+                return Expect::Either("priority_update_above_sozu_cap", Some(c));
+            }
+            Expect::Accept(c)
+        }
+        other => Expect::Accept(RefContent::Unknown(other)),
+    }
+}
+
+// ---------------------------------------------------------------------------------------------
+// translating sozu's answer into the reference vocabulary (observation only)
+// ---------------------------------------------------------------------------------------------
+
+fn sozu_type_byte(t: &FrameType) -> u8 {
+    match t {
+        FrameType::Data => 0,
+        FrameType::Headers => 1,
+        FrameType::Priority => 2,
+        FrameType::RstStream => 3,
+        FrameType::Settings => 4,
+        FrameType::PushPromise => 5,
+        FrameType::Ping => 6,
+        FrameType::GoAway => 7,
+        FrameType::WindowUpdate => 8,
+        FrameType::Continuation => 9,
+        FrameType::PriorityUpdate => 0x10,
+        FrameType::Unknown(b) => *b,
+    }
+}
+
+fn prio_tuple(p: &PriorityPart) -> Option<(bool, u32, u8)> {
+    match p {
+        PriorityPart::Rfc7540 { stream_dependency, weight } => {
+            Some((stream_dependency.exclusive, stream_dependency.stream_id, *weight))
+        }
+        PriorityPart::Rfc9218 { .. } => None,
+    }
+}
+
+/// (observed content, stream id carried by the frame if it has one)
+fn observe(frame: &Frame) -> (RefContent, Option<u32>) {
+    match frame {
+        Frame::Data(d) => (
+            RefContent::Data { start: d.payload.start as usize, len: d.payload.len as usize, end_stream: d.end_stream },
+            Some(d.stream_id),
+        ),
+        Frame::Headers(h) => (
+            RefContent::Headers {
+                prio: h.priority.as_ref().map(|p| prio_tuple(p).unwrap_or((false, u32::MAX, 0))),
+                start: h.header_block_fragment.start as usize,
+                len: h.header_block_fragment.len as usize,
+                end_stream: h.end_stream,
+                end_headers: h.end_headers,
+            },
+            Some(h.stream_id),
+        ),
+        Frame::Priority(p) => {
+            let (exclusive, dep, weight) = prio_tuple(&p.inner).unwrap_or((false, u32::MAX, 0));
+            (RefContent::Priority { exclusive, dep, weight }, Some(p.stream_id))
+        }
+        Frame::RstStream(r) => (RefContent::Rst { code: r.error_code }, Some(r.stream_id)),
+        Frame::Settings(s) => (
+            RefContent::Settings { pairs: s.settings.iter().map(|x| (x.identifier, x.value)).collect(), ack: s.ack },
+            None,
+        ),
+        Frame::PushPromise(_) => (RefContent::Opaque, None),
+        Frame::Ping(p) => (RefContent::Ping { payload: p.payload, ack: p.ack }, None),
+        Frame::GoAway(g) => (
+            RefContent::GoAway {
+                last: g.last_stream_id,
+                code: g.error_code,
+                debug_start: g.additional_debug_data.start as usize,
+                debug_len: g.additional_debug_data.len as usize,
+            },
+            None,
+        ),
+        Frame::WindowUpdate(w) => (RefContent::WindowUpdate { inc: w.increment }, Some(w.stream_id)),
+        Frame::Continuation(_) => (RefContent::Continuation, None),
+        Frame::PriorityUpdate(p) => (
+            RefContent::PriorityUpdate { sid: p.prioritized_stream_id, value: p.priority_field_value.clone() },
+            None,
+        ),
+        Frame::Unknown(b) => (RefContent::Unknown(*b), None),
+    }
+}
+
+// ---------------------------------------------------------------------------------------------
+// counters (flushed into the Report once per batch: 2 M inputs must not pay string maps)
+// ---------------------------------------------------------------------------------------------
+
+#[derive(Default)]
+struct Tally {
+    inputs: u64,
+    preface_ok: u64,
+    preface_err: u64,
+    header_ok: u64,
+    header_err_short: u64,
+    header_err_oversize: u64,
+    header_exempt_sid_rejected: u64,
+    header_exempt_sid_accepted: u64,
+    body_ok: [u64; 12],
+    body_err: [u64; 12],
+    reject_truncated: u64,
+    reject_fixed: u64,
+    reject_pad: u64,
+    reject_other: u64,
+    exempt_accepted: u64,
+    exempt_rejected: u64,
+    padded_ok: u64,
+    prio_headers_ok: u64,
+    trailing_ok: u64,
+    stream_walks: u64,
+    stream_frames: u64,
+    max_payload_ok: u64,
+}
+
+impl Tally {
+    fn flush(&self, r: &mut Report) {
+        r.obs("inputs", self.inputs);
+        r.obs("preface_ok", self.preface_ok);
+        r.obs("preface_err", self.preface_err);
+        r.obs("header_ok", self.header_ok);
+        r.obs("header_err_short_input", self.header_err_short);
+        r.obs("header_err_length_above_max", self.header_err_oversize);
+        r.obs("exempt:stream_id_rule_rejected_by_decoder", self.header_exempt_sid_rejected);
+        r.obs("exempt:stream_id_rule_left_to_connection_layer", self.header_exempt_sid_accepted);
+        for i in 0..12 {
+            r.obs(&format!("body_ok/{}", TYPE_NAMES[i]), self.body_ok[i]);
+            r.obs(&format!("body_err/{}", TYPE_NAMES[i]), self.body_err[i]);
+        }
+        r.obs("reject/payload_truncated", self.reject_truncated);
+        r.obs("reject/fixed_size_mismatch", self.reject_fixed);
+        r.obs("reject/pad_exceeds_payload", self.reject_pad);
+        r.obs("reject/other_malformed", self.reject_other);
+        r.obs("exempt:either_accepted", self.exempt_accepted);
+        r.obs("exempt:either_rejected", self.exempt_rejected);
+        r.obs("padded_frames_decoded", self.padded_ok);
+        r.obs("headers_with_priority_decoded", self.prio_headers_ok);
+        r.obs("ok_with_trailing_bytes_left_untouched", self.trailing_ok);
+        r.obs("frame_stream_walks", self.stream_walks);
+        r.obs("frame_stream_frames", self.stream_frames);
+        r.obs_max("payload_len_decoded", self.max_payload_ok);
+    }
+}
+
+// ---------------------------------------------------------------------------------------------
+// the oracle
+// ---------------------------------------------------------------------------------------------
+
+fn hex_capped(b: &[u8]) -> String {
+    if b.len() <= 600 {
+        hex::encode(b)
+    } else {
+        format!("{}..(+{} bytes)", hex::encode(&b[..600]), b.len() - 600)
+    }
+}
+
+struct Case<'a> {
+    ctx: &'a Ctx,
+    seed: u64,
+    batch: u64,
+    class: &'static str,
+}
+
+impl Case<'_> {
+    fn witness(&self, k: u64, input: &[u8], max: u32, expected: String, observed: String) -> Value {
+        json!({
+            "case": self.batch, "seed": self.seed, "k": k, "class": self.class,
+            "max_frame_size": max, "input_len": input.len(), "input_hex": hex_capped(input),
+            "expected": expected, "observed": observed,
+            "reproduce": "parser::frame_header(&input, max_frame_size) then parser::frame_body(rest, &header)",
+        })
+    }
+}
+
+/// what the decoder did with one input
+#[derive(Clone, Copy, PartialEq, Eq, Debug)]
+enum Outcome {
+    HeaderErr,
+    BodyErr,
+    /// accepted; total bytes consumed
+    Frame(usize),
+    /// an oracle fired (already reported)
+    Flagged,
+}
+
+fn is_suffix_at(whole: &[u8], rest: &[u8], at: usize) -> bool {
+    at <= whole.len() && rest.len() == whole.len() - at && std::ptr::eq(rest.as_ptr(), whole[at..].as_ptr())
+}
+
+/// decode `input` with sozu and with the reference; report disagreements
+fn check_one(c: &Case, k: u64, input: &[u8], max: u32, t: &mut Tally, r: &mut Report) -> Outcome {
+    t.inputs += 1;
+
+    // ---- preface ----
+    match parser::preface(input) {
+        Ok((rest, p)) => {
+            t.preface_ok += 1;
+            if !input.starts_with(PREFACE) || p != PREFACE || !is_suffix_at(input, rest, 24) {
+                r.violation(
+                    "preface/accepted_or_consumed_wrong",
+                    "preface() returned Ok on bytes that are not the 24-byte client preface, or did not consume exactly 24 bytes",
+                    c.witness(k, input, max, "Ok only for the exact preface, consuming 24".into(), format!("rest_len={}", rest.len())),
+                );
+                return Outcome::Flagged;
+            }
+        }
+        Err(_) => {
+            t.preface_err += 1;
+            if input.starts_with(PREFACE) {
+                r.violation(
+                    "preface/rejected_valid",
+                    "preface() rejected an input starting with the client preface",
+                    c.witness(k, input, max, "Ok".into(), "Err".into()),
+                );
+                return Outcome::Flagged;
+            }
+        }
+    }
+
+    // ---- header ----
+    let rh = ref_header(input);
+    let res = parser::frame_header(input, max);
+    let (rest, h): (&[u8], FrameHeader) = match res {
+        Err(e) => {
+            match rh {
+                None => t.header_err_short += 1,
+                Some(h) if h.len > max => t.header_err_oversize += 1,
+                Some(h) if !sid_rule_ok(h.ty, h.sid) => t.header_exempt_sid_rejected += 1,
+                Some(h) => {
+                    r.violation(
+                        "header/rejected_wellformed",
+                        "frame_header rejected nine bytes whose length is within the maximum and whose stream id satisfies the frame type's rule",
+                        c.witness(k, input, max, format!("Ok({h:?})"), format!("{e:?}")),
+                    );
+                    return Outcome::Flagged;
+                }
+            }
+            return Outcome::HeaderErr;
+        }
+        Ok(v) => v,
+    };
+    let Some(rh) = rh else {
+        r.violation(
+            "header/accepted_short_input",
+            "frame_header returned Ok on fewer than 9 bytes",
+            c.witness(k, input, max, "Err".into(), format!("Ok({h:?})")),
+        );
+        return Outcome::Flagged;
+    };
+    if !is_suffix_at(input, rest, 9) {
+        r.violation(
+            "header/consumed_not_9",
+            "frame_header did not consume exactly the 9 header bytes",
+            c.witness(k, input, max, "rest = input[9..]".into(), format!("rest_len={} input_len={}", rest.len(), input.len())),
+        );
+        return Outcome::Flagged;
+    }
+    for (field, got, want) in [
+        ("payload_len", h.payload_len as u64, rh.len as u64),
+        ("frame_type", sozu_type_byte(&h.frame_type) as u64, rh.ty as u64),
+        ("flags", h.flags as u64, rh.flags as u64),
+        ("stream_id", h.stream_id as u64, rh.sid as u64),
+    ] {
+        if got != want {
+            r.violation(
+                &format!("header/field_mismatch/{field}"),
+                "frame_header decoded a field differently from the wire bytes",
+                c.witness(k, input, max, format!("{field}={want}"), format!("{field}={got}")),
+            );
+            return Outcome::Flagged;
+        }
+    }
+    if rh.len > max {
+        r.violation(
+            "header/accepted_length_above_max",
+            "frame_header accepted a frame longer than the maximum frame size it was given",
+            c.witness(k, input, max, "Err(FRAME_SIZE_ERROR)".into(), format!("Ok({h:?})")),
+        );
+        return Outcome::Flagged;
+    }
+    t.header_ok += 1;
+    if !sid_rule_ok(rh.ty, rh.sid) {
+        t.header_exempt_sid_accepted += 1;
+    }
+
+    // ---- body ----
+    let ti = type_index(rh.ty);
+    let tname = TYPE_NAMES[ti];
+    let expect = ref_body(&rh, rest);
+    let plen = rh.len as usize;
+    match parser::frame_body(rest, &h) {
+        Err(e) => {
+            t.body_err[ti] += 1;
+            match expect {
+                Expect::Reject(why) => match why {
+                    "payload_truncated" => t.reject_truncated += 1,
+                    "fixed_size_mismatch" => t.reject_fixed += 1,
+                    "pad_exceeds_payload" => t.reject_pad += 1,
+                    _ => t.reject_other += 1,
+                },
+                Expect::Either(..) => t.exempt_rejected += 1,
+                Expect::Accept(content) => {
+                    r.violation(
+                        &format!("body/rejected_wellformed/{tname}"),
+                        "frame_body reported an error on a well-formed, completely present frame",
+                        c.witness(k, input, max, format!("Ok({content:?})"), format!("{e:?}")),
+                    );
+                    return Outcome::Flagged;
+                }
+            }
+            Outcome::BodyErr
+        }
+        Ok((rest2, frame)) => {
+            if let Expect::Reject(why) = expect {
+                r.violation(
+                    &format!("body/accepted_malformed/{tname}/{why}"),
+                    "frame_body returned Ok although no decode of these bytes exists (RFC 9113 makes it a size/protocol error)",
+                    c.witness(k, input, max, format!("Err ({why})"), format!("Ok({frame:?}) rest_len={}", rest2.len())),
+                );
+                return Outcome::Flagged;
+            }
+            if !is_suffix_at(rest, rest2, plen) {
+                r.violation(
+                    &format!("body/consumed_not_payload_len/{tname}"),
+                    "frame_body returned Ok without consuming exactly the declared payload length",
+                    c.witness(
+                        k, input, max,
+                        format!("consumed {plen} of {}", rest.len()),
+                        format!("consumed {} (rest_len={})", rest.len() as i64 - rest2.len() as i64, rest2.len()),
+                    ),
+                );
+                return Outcome::Flagged;
+            }
+            let want = match expect {
+                Expect::Accept(c) => Some(c),
+                Expect::Either(_, c) => {
+                    t.exempt_accepted += 1;
+                    c
+                }
+                Expect::Reject(_) => unreachable!(),
+            };
+            let (got, got_sid) = observe(&frame);
+            if let Some(want) = want {
+                if want != got {
+                    r.violation(
+                        &format!("body/content_mismatch/{tname}"),
+                        "the decoded frame differs from the wire bytes",
+                        c.witness(k, input, max, format!("{want:?}"), format!("{got:?}")),
+                    );
+                    return Outcome::Flagged;
+                }
+                match &want {
+                    RefContent::Data { start, .. } | RefContent::Headers { start, .. } if rh.flags & 0x8 != 0 && *start > 0 => {
+                        t.padded_ok += 1
+                    }
+                    _ => {}
+                }
+                if let RefContent::Headers { prio: Some(_), .. } = &want {
+                    t.prio_headers_ok += 1;
+                }
+            }
+            if let Some(s) = got_sid {
+                if s != rh.sid {
+                    r.violation(
+                        &format!("body/content_mismatch/{tname}/stream_id"),
+                        "the decoded frame carries a stream id different from the header's",
+                        c.witness(k, input, max, format!("stream_id={}", rh.sid), format!("stream_id={s}")),
+                    );
+                    return Outcome::Flagged;
+                }
+            }
+            t.body_ok[ti] += 1;
+            if !rest2.is_empty() {
+                t.trailing_ok += 1;
+            }
+            t.max_payload_ok = t.max_payload_ok.max(plen as u64);
+            Outcome::Frame(9 + plen)
+        }
+    }
+}
+
+/// run `check_one` behind a panic guard; a panic under /repo is the violation
+fn checked(c: &Case, k: u64, input: &[u8], max: u32, t: &mut Tally, r: &mut Report) -> Outcome {
+    match guard(|| check_one(c, k, input, max, t, r)) {
+        Ok(o) => {
+            record_shape(input, max, o, r);
+            o
+        }
+        Err(p) => {
+            if p.in_sozu() {
+                r.violation(
+                    &p.signature(),
+                    &format!("the frame decoder panicked: {} at {}", p.message, p.location),
+                    c.witness(k, input, max, "Err or Ok, never a panic".into(), format!("panic: {} at {}", p.message, p.location)),
+                );
+            } else {
+                r.broken(&format!("harness panic in parser lab batch {} input {k}: {} at {}", c.batch, p.message, p.location));
+            }
+            r.case(0, false);
+            Outcome::Flagged
+        }
+    }
+}
+
+fn len_bucket(len: u32, max: u32) -> u8 {
+    match len {
+        0..=9 => len as u8,
+        10..=18 => 10,
+        19..=255 => 11,
+        256..=1028 => 12,
+        1029..=16384 => 13,
+        _ if len <= max => 14,
+        _ => 15,
+    }
+}
+
+fn record_shape(input: &[u8], max: u32, o: Outcome, r: &mut Report) {
+    match ref_header(input) {
+        None => r.case_bytes(&[0xff, input.len() as u8], false),
+        Some(h) => {
+            let tail = (input.len() - 9).cmp(&(h.len as usize)) as i8 as u8;
+            let sidc = match h.sid {
+                0 => 0u8,
+                0x7fff_ffff => 3,
+                s if s % 2 == 1 => 1,
+                _ => 2,
+            };
+            let oc = match o {
+                Outcome::HeaderErr => 0u8,
+                Outcome::BodyErr => 1,
+                Outcome::Frame(_) => 2,
+                Outcome::Flagged => 3,
+            };
+            r.case_bytes(&[h.ty.min(0x12), h.flags, len_bucket(h.len, max), sidc, input[5] >> 7, tail, oc], true);
+        }
+    }
+}
+
+// ---------------------------------------------------------------------------------------------
+// generators
+// ---------------------------------------------------------------------------------------------
+
+const MAX_SIZES: [u32; 6] = [16_384, 16_385, 32_768, 65_535, 1 << 20, (1 << 24) - 1];
+const ALL_TYPES: [u8; 20] = [0, 1, 2, 3, 4, 5, 6, 7, 8, 9, 0x0a, 0x0b, 0x0c, 0x0f, 0x10, 0x11, 0x12, 0x7f, 0x80, 0xff];
+const GRID_LENS: [u32; 17] = [0, 1, 3, 4, 5, 6, 7, 8, 9, 11, 12, 13, 14, 18, 36, 16_385, 0xff_ffff];
+const GRID_SIDS: [u32; 7] = [0, 1, 2, 0x7fff_ffff, 0x8000_0000, 0x8000_0001, 0xffff_ffff];
+const GRID_TAILS: u64 = 3; // exact, +9 trailing bytes, one byte short
+const GRID_POINTS: u64 = (ALL_TYPES.len() * 256 * GRID_LENS.len() * GRID_SIDS.len()) as u64 * GRID_TAILS;
+const GRID_BATCH: u64 = 4096;
+const INTERESTING: [u8; 10] = [0, 1, 4, 5, 6, 8, 9, 0x7f, 0x80, 0xff];
+
+fn put_header(out: &mut Vec<u8>, len: u32, ty: u8, flags: u8, sid_raw: u32) {
+    out.extend_from_slice(&[(len >> 16) as u8, (len >> 8) as u8, len as u8, ty, flags]);
+    out.extend_from_slice(&sid_raw.to_be_bytes());
+}
+
+/// the grid point `g` of the exhaustively enumerated (type, flags, length, stream id, tail) space;
+/// payload bytes come from a fixed-seed stream (not part of the exhaustiveness claim)
+fn grid_input(g: u64) -> (Vec<u8>, u32) {
+    let mut x = g;
+    let tail = x % GRID_TAILS;
+    x /= GRID_TAILS;
+    let sid = GRID_SIDS[(x % GRID_SIDS.len() as u64) as usize];
+    x /= GRID_SIDS.len() as u64;
+    let len = GRID_LENS[(x % GRID_LENS.len() as u64) as usize];
+    x /= GRID_LENS.len() as u64;
+    let flags = (x % 256) as u8;
+    x /= 256;
+    let ty = ALL_TYPES[x as usize];
+    let mut rng = Rng::for_case(0xC15, 1, g);
+    let mut out = Vec::with_capacity(9 + len as usize + 9);
+    put_header(&mut out, len, ty, flags, sid);
+    // lengths above every buffer the grid builds (16 385: above/at the maximum; 2^24-1): only a
+    // few payload bytes follow, the decoder must refuse either the length or the truncation
+    let mut payload = rng.bytes(if len > 64 { 40 } else { len as usize });
+    if len > 0 {
+        // first byte = pad length when PADDED: sweep the boundary around what is left
+        let l = len as i64;
+        let cands = [0, 1, l - 7, l - 6, l - 2, l - 1, l, 255];
+        payload[0] = cands[rng.usize_below(cands.len())].clamp(0, 255) as u8;
+    }
+    match tail {
+        0 => out.extend_from_slice(&payload),
+        1 => {
+            out.extend_from_slice(&payload);
+            out.extend_from_slice(&rng.bytes(9));
+        }
+        _ => {
+            if !payload.is_empty() {
+                payload.pop();
+            }
+            out.extend_from_slice(&payload);
+        }
+    }
+    (out, MAX_SIZES[(g % 2) as usize])
+}
+
+fn pick_sid(rng: &mut Rng, want_zero: Option<bool>) -> u32 {
+    let base = match want_zero {
+        Some(true) => 0,
+        Some(false) => *rng.pick(&[1u32, 3, 2, 0x7fff_ffff, 0x7fff_fffe, 101]),
+        None => *rng.pick(&[0u32, 1, 2, 3, 0x7fff_ffff, 0x1234_5678]),
+    };
+    if rng.chance(1, 4) { base | 0x8000_0000 } else { base }
+}
+
+/// a well-formed frame of wire type `ty` (full bytes). `big` allows payloads up to 16 384
+fn valid_frame(rng: &mut Rng, ty: u8, big: bool) -> Vec<u8> {
+    let var_len = |rng: &mut Rng| -> usize {
+        if big && rng.chance(1, 6) {
+            *rng.pick(&[16_383usize, 16_384, 9_000, 4_096])
+        } else {
+            rng.boundary_size(&[0, 1, 5, 6, 9, 24, 255, 256], 600)
+        }
+    };
+    let mut out = Vec::new();
+    match ty {
+        T_DATA | T_HEADERS => {
+            let mut flags = rng.next_u64() as u8 & if ty == T_DATA { 0x09 } else { 0x2d };
+            if rng.chance(1, 8) {
+                flags |= rng.next_u64() as u8 & !0x28; // undefined flag bits must be ignored
+            }
+            let body = var_len(rng);
+            let mut payload = Vec::new();
+            let pad = if flags & 0x8 != 0 { *rng.pick(&[0usize, 1, 2, 7, 255]) } else { 0 };
+            if flags & 0x8 != 0 {
+                payload.push(pad as u8);
+            }
+            if ty == T_HEADERS && flags & 0x20 != 0 {
+                payload.extend_from_slice(&rng.bytes(5));
+            }
+            payload.extend_from_slice(&rng.bytes(body));
+            payload.extend(std::iter::repeat(0u8).take(pad));
+            put_header(&mut out, payload.len() as u32, ty, flags, pick_sid(rng, Some(false)));
+            out.extend_from_slice(&payload);
+        }
+        T_PRIORITY => {
+            put_header(&mut out, 5, ty, rng.next_u64() as u8, pick_sid(rng, Some(false)));
+            out.extend_from_slice(&rng.bytes(5));
+        }
+        T_RST => {
+            put_header(&mut out, 4, ty, rng.next_u64() as u8, pick_sid(rng, Some(false)));
+            out.extend_from_slice(&(rng.below(0x10) as u32).to_be_bytes());
+        }
+        T_SETTINGS => {
+            if rng.chance(1, 4) {
+                put_header(&mut out, 0, ty, 1, pick_sid(rng, Some(true)));
+            } else {
+                let n = *rng.pick(&[0usize, 1, 2, 6, 8, 63, 64, 65, 100]);
+                put_header(&mut out, (n * 6) as u32, ty, rng.next_u64() as u8 & !1, pick_sid(rng, Some(true)));
+                for _ in 0..n {
+                    out.extend_from_slice(&(rng.below(12) as u16).to_be_bytes());
+                    out.extend_from_slice(&(rng.next_u64() as u32).to_be_bytes());
+                }
+            }
+        }
+        T_PUSH => {
+            let n = var_len(rng).max(4);
+            put_header(&mut out, n as u32, ty, rng.next_u64() as u8 & 0x0c, pick_sid(rng, Some(false)));
+            out.extend_from_slice(&rng.bytes(n));
+        }
+        T_PING => {
+            put_header(&mut out, 8, ty, rng.next_u64() as u8, pick_sid(rng, Some(true)));
+            out.extend_from_slice(&rng.bytes(8));
+        }
+        T_GOAWAY => {
+            let n = rng.boundary_size(&[0, 1, 16], 300);
+            put_header(&mut out, (8 + n) as u32, ty, rng.next_u64() as u8, pick_sid(rng, Some(true)));
+            out.extend_from_slice(&rng.bytes(8 + n));
+        }
+        T_WINUP => {
+            put_header(&mut out, 4, ty, rng.next_u64() as u8, pick_sid(rng, None));
+            let inc = *rng.pick(&[1u32, 0, 0x7fff_ffff, 0x8000_0001, 65_535, 0xffff_ffff]);
+            out.extend_from_slice(&inc.to_be_bytes());
+        }
+        T_CONT => {
+            let n = var_len(rng);
+            put_header(&mut out, n as u32, ty, rng.next_u64() as u8 & 0x04, pick_sid(rng, Some(false)));
+            out.extend_from_slice(&rng.bytes(n));
+        }
+        T_PRIO_UPDATE => {
+            let n = *rng.pick(&[0usize, 1, 3, 8, 1023, 1024, 1025, 2000]);
+            put_header(&mut out, (4 + n) as u32, ty, rng.next_u64() as u8, pick_sid(rng, Some(true)));
+            out.extend_from_slice(&rng.bytes(4 + n));
+        }
+        other => {
+            let n = var_len(rng);
+            put_header(&mut out, n as u32, other, rng.next_u64() as u8, pick_sid(rng, None));
+            out.extend_from_slice(&rng.bytes(n));
+        }
+    }
+    out
+}
+
+fn any_type(rng: &mut Rng) -> u8 {
+    if rng.chance(9, 10) { *rng.pick(&[0u8, 1, 2, 3, 4, 5, 6, 7, 8, 9, 0x10]) } else { *rng.pick(&ALL_TYPES) }
+}
+
+fn set_len(frame: &mut [u8], len: u32) {
+    frame[0] = (len >> 16) as u8;
+    frame[1] = (len >> 8) as u8;
+    frame[2] = len as u8;
+}
+
+/// one structural or byte-level mutation of a frame
+fn mutate(rng: &mut Rng, f: &mut Vec<u8>, max: u32) {
+    if f.is_empty() {
+        let n = rng.urange(1, 12);
+        f.extend_from_slice(&rng.bytes(n));
+        return;
+    }
+    match rng.below(12) {
+        0 => {
+            let i = rng.usize_below(f.len());
+            f[i] ^= 1 << rng.below(8);
+        }
+        1 => {
+            let i = rng.usize_below(f.len());
+            f[i] = *rng.pick(&INTERESTING);
+        }
+        2 => {
+            let i = rng.usize_below(f.len() + 1);
+            f.insert(i, *rng.pick(&INTERESTING));
+        }
+        3 => {
+            let i = rng.usize_below(f.len());
+            f.remove(i);
+        }
+        // length classes: 0, wrong fixed size (±1, ±2), > max, the byte count actually present ±1
+        4 if f.len() >= 9 => {
+            let cur = ref_header(f).map(|h| h.len).unwrap_or(0) as i64;
+            let present = f.len() as i64 - 9;
+            let cands = [0, cur - 1, cur + 1, cur - 2, cur + 2, present, present + 1, present - 1, max as i64, max as i64 + 1, 0xff_ffff];
+            set_len(f, cands[rng.usize_below(cands.len())].clamp(0, 0xff_ffff) as u32);
+        }
+        5 if f.len() >= 9 => f[3] = any_type(rng),
+        6 if f.len() >= 9 => f[4] ^= *rng.pick(&[0x1u8, 0x4, 0x8, 0x20, 0x28, 0x29, 0xff]),
+        7 if f.len() >= 9 => {
+            let sid = pick_sid(rng, None);
+            f[5..9].copy_from_slice(&sid.to_be_bytes());
+        }
+        // pad length byte
+        8 if f.len() >= 10 => {
+            let present = (f.len() - 9) as i64;
+            let cands = [0, 1, present - 7, present - 6, present - 2, present - 1, present, 255];
+            f[9] = cands[rng.usize_below(cands.len())].clamp(0, 255) as u8;
+            f[4] |= 0x8;
+        }
+        9 => {
+            let n = rng.usize_below(f.len() + 1);
+            f.truncate(n);
+        }
+        10 => {
+            let n = rng.urange(1, 20);
+            f.extend_from_slice(&rng.bytes(n));
+        }
+        _ => {
+            let i = rng.usize_below(f.len());
+            let n = rng.urange(1, 4).min(f.len() - i);
+            let b = rng.bytes(n);
+            f[i..i + n].copy_from_slice(&b);
+        }
+    }
+}
+
+fn pick_max(rng: &mut Rng) -> u32 {
+    if rng.chance(2, 3) { 16_384 } else { *rng.pick(&MAX_SIZES) }
+}
+
+/// files of the repository's fuzz corpus (read at run time only if present)
+fn load_corpus() -> Vec<(String, Vec<u8>)> {
+    let mut out = Vec::new();
+    let Ok(dirs) = std::fs::read_dir("/repo/fuzz/corpus") else {
+        return out;
+    };
+    let mut dirs: Vec<_> = dirs.filter_map(|d| d.ok()).map(|d| d.path()).collect();
+    dirs.sort();
+    for d in dirs {
+        let Ok(files) = std::fs::read_dir(&d) else { continue };
+        let mut files: Vec<_> = files.filter_map(|f| f.ok()).map(|f| f.path()).collect();
+        files.sort();
+        for f in files {
+            if let Ok(bytes) = std::fs::read(&f) {
+                if bytes.len() <= 1 << 16 {
+                    out.push((f.display().to_string(), bytes));
+                }
+            }
+        }
+    }
+    out
+}
+
+// ---------------------------------------------------------------------------------------------
+// batches
+// ---------------------------------------------------------------------------------------------
+
+const INPUTS_PER_BATCH: u64 = 512;
+
+struct Plan {
+    grid_batches: u64,
+    trunc_batches: u64,
+    corpus_batches: u64,
+    random_batches: u64,
+}
+
+impl Plan {
+    fn total(&self) -> u64 {
+        self.grid_batches + self.trunc_batches + self.corpus_batches + self.random_batches
+    }
+}
+
+/// every prefix of `frame` (exhaustive when short, boundaries + samples otherwise)
+fn truncations(c: &Case, rng: &mut Rng, frame: &[u8], max: u32, k: &mut u64, t: &mut Tally, r: &mut Report) {
+    let n = frame.len();
+    if n <= 96 {
+        for cut in 0..=n {
+            checked(c, *k, &frame[..cut], max, t, r);
+            *k += 1;
+        }
+        r.obs("frames_truncated_at_every_prefix", 1);
+    } else {
+        let mut cuts: Vec<usize> = (0..=24).collect();
+        cuts.extend([n - 2, n - 1, n]);
+        for _ in 0..8 {
+            cuts.push(rng.usize_below(n));
+        }
+        for cut in cuts {
+            checked(c, *k, &frame[..cut.min(n)], max, t, r);
+            *k += 1;
+        }
+        r.obs("frames_truncated_sampled", 1);
+    }
+}
+
+/// concatenated frames walked like a reader would: every frame consumed exactly, no desync
+fn stream_walk(c: &Case, rng: &mut Rng, k: &mut u64, t: &mut Tally, r: &mut Report) {
+    let n = rng.urange(2, 8);
+    let mut stream = Vec::new();
+    let mut bounds = vec![0usize];
+    for _ in 0..n {
+        let ty = *rng.pick(&[0u8, 1, 2, 3, 4, 6, 7, 8, 9, 0x10, 0x42]);
+        let mut f = valid_frame(rng, ty, false);
+        // keep the walk on frames every decoder must accept: drop the exempt shapes
+        if let Some(h) = ref_header(&f) {
+            let exempt = matches!(ref_body(&h, &f[9..]), Expect::Either(..));
+            if exempt {
+                f = valid_frame(rng, T_PING, false);
+            }
+        }
+        stream.extend_from_slice(&f);
+        bounds.push(stream.len());
+    }
+    t.stream_walks += 1;
+    let mut at = 0usize;
+    let mut i = 0usize;
+    while at < stream.len() {
+        let o = checked(c, *k, &stream[at..], 16_384, t, r);
+        *k += 1;
+        match o {
+            Outcome::Frame(used) => {
+                at += used;
+                i += 1;
+                t.stream_frames += 1;
+                if bounds.get(i) != Some(&at) {
+                    r.violation(
+                        "stream/desynchronised",
+                        "walking a concatenation of well-formed frames, the decoder's consumption left the frame boundaries",
+                        c.witness(*k, &stream, 16_384, format!("boundaries {bounds:?}"), format!("offset {at} after frame {i}")),
+                    );
+                    return;
+                }
+            }
+            Outcome::Flagged => return,
+            Outcome::HeaderErr | Outcome::BodyErr => {
+                // a well-formed frame refused: check_one has already flagged it unless exempt
+                r.obs("stream_walk_stopped_on_error", 1);
+                return;
+            }
+        }
+    }
+}
+
+/// sozu's logger is thread-local and, uninitialised, prints every `error!` of the parser to
+/// stdout: switch it off for the calling thread (observation is through return values only)
+fn silence_sozu_logger() {
+    use sozu_command_lib::logging::{LOGGER, parse_logging_spec};
+    thread_local! { static DONE: std::cell::Cell<bool> = const { std::cell::Cell::new(false) }; }
+    if !DONE.with(|d| d.replace(true)) {
+        let (directives, _) = parse_logging_spec("off");
+        LOGGER.with(|l| l.borrow_mut().set_directives(directives));
+    }
+}
+
+fn run_batch(ctx: &Ctx, seed: u64, plan: &Plan, corpus: &[(String, Vec<u8>)], batch: u64, r: &mut Report) {
+    silence_sozu_logger();
+    let mut t = Tally::default();
+    let mut k = 0u64;
+    let mut rng = Rng::for_case(seed, 0xC15A, batch);
+    let mut b = batch;
+    if b < plan.grid_batches {
+        let c = Case { ctx, seed, batch, class: "grid" };
+        let lo = b * GRID_BATCH;
+        let hi = (lo + GRID_BATCH).min(GRID_POINTS);
+        for g in lo..hi {
+            let (input, max) = grid_input(g);
+            checked(&c, g, &input, max, &mut t, r);
+        }
+        r.obs("grid_points", hi - lo);
+        t.flush(r);
+        return;
+    }
+    b -= plan.grid_batches;
+    if b < plan.trunc_batches {
+        let c = Case { ctx, seed, batch, class: "truncation" };
+        while t.inputs < INPUTS_PER_BATCH {
+            let ty = any_type(&mut rng);
+            let big = rng.chance(1, 20);
+            let f = valid_frame(&mut rng, ty, big);
+            let max = pick_max(&mut rng);
+            truncations(&c, &mut rng, &f, max, &mut k, &mut t, r);
+            // and the preface, alone and followed by a frame
+            if rng.chance(1, 16) {
+                let mut p = PREFACE.to_vec();
+                p.extend_from_slice(&valid_frame(&mut rng, T_SETTINGS, false));
+                truncations(&c, &mut rng, &p, max, &mut k, &mut t, r);
+            }
+        }
+        t.flush(r);
+        return;
+    }
+    b -= plan.trunc_batches;
+    if b < plan.corpus_batches {
+        let c = Case { ctx, seed, batch, class: "corpus" };
+        if corpus.is_empty() {
+            return;
+        }
+        // first pass over the files: as they are and at every prefix; later batches: mutants
+        if b == 0 {
+            for (_, bytes) in corpus {
+                for max in [16_384, (1 << 24) - 1] {
+                    truncations(&c, &mut rng, bytes, max, &mut k, &mut t, r);
+                }
+                r.obs("corpus_files_replayed", 1);
+            }
+        }
+        while t.inputs < INPUTS_PER_BATCH {
+            let (_, bytes) = rng.pick(corpus);
+            let mut f = bytes.clone();
+            let max = pick_max(&mut rng);
+            for _ in 0..rng.urange(1, 4) {
+                mutate(&mut rng, &mut f, max);
+            }
+            if rng.chance(1, 4) {
+                let (_, other) = rng.pick(corpus);
+                f.extend_from_slice(other);
+            }
+            checked(&c, k, &f, max, &mut t, r);
+            k += 1;
+            r.obs("corpus_mutants", 1);
+        }
+        t.flush(r);
+        return;
+    }
+    // random / mutated / streams
+    let c_rand = Case { ctx, seed, batch, class: "random_bytes" };
+    let c_mut = Case { ctx, seed, batch, class: "mutated_frame" };
+    let c_valid = Case { ctx, seed, batch, class: "valid_frame" };
+    let c_stream = Case { ctx, seed, batch, class: "frame_stream" };
+    while t.inputs < INPUTS_PER_BATCH {
+        let max = pick_max(&mut rng);
+        match rng.below(10) {
+            0 => {
+                // arbitrary bytes, short
+                let n = rng.boundary_size(&[0, 8, 9, 10, 24], 80);
+                let input = rng.bytes(n);
+                checked(&c_rand, k, &input, max, &mut t, r);
+            }
+            1 => {
+                // arbitrary bytes behind a plausible length field so that bodies are reached
+                let n = rng.boundary_size(&[9, 13, 14, 17, 18], 300).max(9);
+                let mut input = rng.bytes(n);
+                let present = (n - 9) as i64;
+                let l = (present + rng.range(0, 4) as i64 - 2).clamp(0, 0xff_ffff) as u32;
+                set_len(&mut input, l);
+                if rng.chance(3, 4) {
+                    input[3] = any_type(&mut rng);
+                }
+                checked(&c_rand, k, &input, max, &mut t, r);
+            }
+            2 => {
+                let ty = any_type(&mut rng);
+                let big = rng.chance(1, 10);
+                let f = valid_frame(&mut rng, ty, big);
+                checked(&c_valid, k, &f, max, &mut t, r);
+            }
+            3 => stream_walk(&c_stream, &mut rng, &mut k, &mut t, r),
+            _ => {
+                let ty = any_type(&mut rng);
+                let mut f = valid_frame(&mut rng, ty, false);
+                for _ in 0..rng.urange(1, 3) {
+                    mutate(&mut rng, &mut f, max);
+                }
+                if rng.chance(1, 5) {
+                    let ty = any_type(&mut rng);
+                    let next = valid_frame(&mut rng, ty, false);
+                    f.extend_from_slice(&next);
+                }
+                checked(&c_mut, k, &f, max, &mut t, r);
+            }
+        }
+        k += 1;
+    }
+    t.flush(r);
+}
+
+// ---------------------------------------------------------------------------------------------
+// entry points
+// ---------------------------------------------------------------------------------------------
+
+/// part (a): the frame-decoder lab
+pub fn run_parser(ctx: &Ctx, rep: &mut Report) {
+    rep.assume("frame-decoder lab: the reference decode is written from RFC 9113 §4.1/§6 and RFC 9218 §7.1 only; kawa's `Slice` (start,len) is read as an offset into the bytes handed to frame_body");
+    rep.assume("frame-decoder lab: stream-id zero/non-zero rules, zero WINDOW_UPDATE increments, PUSH_PROMISE, SETTINGS with more than 64 entries and PRIORITY_UPDATE values above 1024 bytes may be refused by the decoder or left to the connection layer: both answers are accepted and counted under exempt:*");
+    rep.assume("frame-decoder lab: max_frame_size ranges over RFC-legal values 16384..=16777215 (what the production callers pass)");
+    if ctx.replay.is_none() {
+        for k in [
+            "header_ok",
+            "header_err_short_input",
+            "header_err_length_above_max",
+            "reject/payload_truncated",
+            "reject/fixed_size_mismatch",
+            "reject/pad_exceeds_payload",
+            "padded_frames_decoded",
+            "headers_with_priority_decoded",
+            "ok_with_trailing_bytes_left_untouched",
+            "frame_stream_frames",
+            "preface_ok",
+            "frames_truncated_at_every_prefix",
+        ] {
+            rep.require(k);
+        }
+        for (i, name) in TYPE_NAMES.iter().enumerate() {
+            if i != T_PUSH as usize {
+                rep.require(&format!("body_ok/{name}"));
+            }
+            rep.require(&format!("body_err/{name}"));
+        }
+    }
+
+    let corpus = load_corpus();
+    rep.set("parser_lab_fuzz_corpus_files", json!(corpus.len()));
+    if corpus.is_empty() {
+        rep.assume("frame-decoder lab: /repo/fuzz/corpus not present, corpus seeding skipped");
+    } else if ctx.replay.is_none() {
+        rep.require("corpus_files_replayed");
+    }
+
+    let grid_batches = GRID_POINTS.div_ceil(GRID_BATCH);
+    let target_inputs = ctx.opt_u64("parser_inputs", ctx.tier.pick(8_000_000, 1_000_000_000));
+    let rest = target_inputs.saturating_sub(GRID_POINTS) / INPUTS_PER_BATCH;
+    let plan = Plan {
+        grid_batches,
+        trunc_batches: rest * 3 / 10,
+        corpus_batches: if corpus.is_empty() { 0 } else { (rest / 10).max(1) },
+        random_batches: (rest * 6 / 10).max(1),
+    };
+    rep.set(
+        "parser_lab_plan",
+        json!({"grid_points": GRID_POINTS, "grid_batches": plan.grid_batches, "truncation_batches": plan.trunc_batches,
+               "corpus_batches": plan.corpus_batches, "random_batches": plan.random_batches,
+               "grid": "20 type bytes x 256 flags x 17 lengths (0..36, 16385, 2^24-1) x 7 raw stream ids x {exact, +9 trailing, 1 short}; payload bytes sampled"}),
+    );
+
+    if let Some(path) = &ctx.replay {
+        let v: Value = serde_json::from_str(&std::fs::read_to_string(path).unwrap_or_default()).unwrap_or(Value::Null);
+        let seed = v["seed"].as_u64().unwrap_or(ctx.seed);
+        let mut seen = std::collections::BTreeSet::new();
+        for w in v["witnesses"].as_array().cloned().unwrap_or_default() {
+            if w.get("max_frame_size").is_none() {
+                continue; // not a parser-lab witness
+            }
+            let wseed = w["seed"].as_u64().unwrap_or(seed);
+            if let Some(c) = w["case"].as_u64() {
+                if seen.insert((wseed, c)) {
+                    run_batch(ctx, wseed, &plan, &corpus, c, rep);
+                }
+            }
+        }
+        return;
+    }
+
+    let total = plan.total();
+    // interleave the classes so that a run cut short by the budget still saw all of them
+    let order = |i: u64| -> u64 {
+        let stride = 7919 % total.max(1);
+        if total > 1 && gcd(stride.max(1), total) == 1 { (i * stride.max(1)) % total } else { i }
+    };
+    par_cases_named(ctx, rep, total, "c15-parser", |i, r| run_batch(ctx, ctx.seed, &plan, &corpus, order(i), r));
+    if rep.observed.get("grid_points").copied().unwrap_or(0) == GRID_POINTS {
+        rep.set("parser_lab_grid_exhaustive", json!(true));
+    } else {
+        rep.set("parser_lab_grid_exhaustive", json!(false));
+    }
+}
+
+fn gcd(a: u64, b: u64) -> u64 {
+    if b == 0 { a } else { gcd(b, a % b) }
+}
+
+pub fn run(ctx: &Ctx) -> Report {
+    let mut rep = Report::new(
+        "exploration",
+        "frame-decoder lab: byte strings fed to preface/frame_header/frame_body and compared with an independent RFC 9113 decode: (1) an exhaustively enumerated grid of type byte x flags x length x raw stream id x tail (exact / trailing bytes / one byte short), (2) well-formed frames of every type cut at every prefix length, (3) the repository's fuzz corpus, as is, at every prefix, and mutated, (4) arbitrary bytes, mutated valid frames (length classes 0 / +-1 / +-2 / bytes present / > max, type, flags, stream id, pad length, insert/delete/flip) and concatenated frame streams walked frame by frame; a case is non-trivial when a 9-byte header is present; distinct = distinct (type, flags, length bucket, stream-id class, reserved bit, tail relation, decoder outcome)",
+    );
+    run_parser(ctx, &mut rep);
     rep
 }
